@@ -139,6 +139,7 @@ fn one_jet(cx: &mut Ctx, sig: &JetSig, n_random: usize) {
     let probe_args: Vec<Val> = sig.rparams.iter().map(zero_val).collect();
     if jetmodel::model(sig, &probe_args).is_none() || !is_sum_free(&sig.rret) {
         cx.report.count("jets_without_model", 1);
+        unmodelled_argument_order(cx, sig, &ws);
         return;
     }
     cx.report.count("jets_with_model", 1);
@@ -247,6 +248,57 @@ fn one_jet(cx: &mut Ctx, sig: &JetSig, n_random: usize) {
                 "case": case_json(&p, &w, false),
                 "signature": format!("jetvalue:{}", sig.name),
             }));
+        }
+    }
+}
+
+/// Jets without a native model (hashes, elliptic curve, transaction introspection): the call is
+/// executed with random arguments and the jet event must carry exactly the written arguments in
+/// the written order (its output is whatever the C jet computes).
+fn unmodelled_argument_order(cx: &mut Ctx, sig: &JetSig, ws: &[(String, Ty)]) {
+    if sig.rparams.is_empty() {
+        return;
+    }
+    let stmts = vec![let_(
+        "r",
+        sig.rret.clone(),
+        Expr::jet(&sig.name, ws.iter().map(|(n, _)| Expr::Witness(n.clone())).collect()),
+    )];
+    let witnesses: Vec<(String, Ty)> = ws.iter().zip(&sig.rparams).map(|((n, _), t)| (n.clone(), t.clone())).collect();
+    let prog = Program { items: vec![main_fn(stmts)], holes: vec![] };
+    let p = match prepared_from(cx, prog, witnesses, vec![], WMap::new(), WMap::new(), &Style::plain()) {
+        Ok(p) => p,
+        Err(e) => {
+            cx.report.harness_error(json!({"what": e, "jet": sig.name}));
+            return;
+        }
+    };
+    let Some(built) = build_or_report(cx, &p, false, true) else { return };
+    let mut rng = cx.rng(&[crate::rng::fnv64(sig.name.as_bytes()), 99]);
+    for _ in 0..3 {
+        let args: Vec<Val> = sig.rparams.iter().map(|t| random_val(t, &mut rng)).collect();
+        let mut w = WMap::new();
+        for ((n, _), v) in ws.iter().zip(&args) {
+            w.insert(n.clone(), v.clone());
+        }
+        let ex = execute(cx, &p, &built, &w, false);
+        if !record(cx, &ex.judgement, &p, &w, false, &format!("jetorder:{}", sig.name)) {
+            continue;
+        }
+        let want_in = layout_value(&Val::Tuple(args.clone()));
+        let got = ex.redeem.as_ref().and_then(|r| r.trace.as_ref()).and_then(|t| {
+            t.events.iter().find_map(|e| match e {
+                Event::Jet { name, input, .. } if *name == sig.name => Some(input.clone()),
+                _ => None,
+            })
+        });
+        if got.as_ref() == Some(&want_in) {
+            cx.report.count("unmodelled_jet_inputs_checked", 1);
+            cx.report.nontrivial.insert(crate::rng::fnv64(format!("order|{}|{}", sig.name, want_in.show()).as_bytes()));
+        } else {
+            cx.report.violation(json!({"kind": "jet-arguments", "what": format!("jet {}: the written arguments {} must reach the jet as {}, observed {:?}",
+                sig.name, render_val_dec(&Val::Tuple(args)), want_in.brief(), got.map(|g| g.brief())), "case": case_json(&p, &w, false),
+                "signature": format!("jetorder:{}", sig.name)}));
         }
     }
 }
